@@ -230,6 +230,10 @@ class Matrix:
         self.samples = []
         self.outcome_hist = {}
         self.replay_module = None
+        self.grace = None
+        self.key_hook = None
+        self.skipped_rounds = set()
+        self.rounds_started = []
 
     def add_failure(self, key, job, outcome, msg):
         with self.lock:
@@ -265,8 +269,10 @@ class Matrix:
                 return None
             remaining = 0
             if deadline_at is not None:
-                remaining = deadline_at - time.time()
-                if remaining <= 1:
+                # deadline_at is the SOFT deadline: no new round starts after it.  Explorations of a round that has started
+                # may run on until the hard deadline (soft + grace), so a started round is normally completed as a whole.
+                remaining = deadline_at + self.grace - time.time()
+                if remaining <= 1 or job.get('round', 0) in self.skipped_rounds:
                     return 'skipped'
             try:
                 res = explore(job['exe'], job['words'], pb=job['pb'], db=job.get('db', 0), spurious=job.get('spurious', 0), jobs=job.get('jobs', 1),
@@ -277,6 +283,8 @@ class Matrix:
                         raise MachineryError(o['err'])
                     if o['san']:
                         key, text = self._classify_san(job, o)
+                        if self.key_hook:
+                            key = self.key_hook(job, key)
                         fails.append((key, 'sanitizer report on schedule %s: %s' % (o['sched'], _short_report(text))))
                     elif o['status'] not in self.allowed_status:
                         k = 'terminal|' + o['status']
@@ -299,8 +307,15 @@ class Matrix:
         import queue
         ncpu = workers or NCPU
         ordered, results = [], []
-        for k in sorted(set(j.get('jobs', 1) for j in jobs), reverse=True):
-            part = [j for j in jobs if j.get('jobs', 1) == k]
+        rounds = sorted(set(j.get('round', 0) for j in jobs))
+        self.grace = getattr(self, 'grace', None) if getattr(self, 'grace', None) is not None else (0.5 * max(deadline_at - time.time(), 0) if deadline_at is not None else 0)
+        self.rounds_started = []
+        for rnd, k in [(r, k) for r in rounds for k in sorted(set(j.get('jobs', 1) for j in jobs if j.get('round', 0) == r), reverse=True)]:
+            if deadline_at is not None and time.time() > deadline_at and rnd not in self.rounds_started:
+                self.skipped_rounds.add(rnd)
+            elif rnd not in self.rounds_started:
+                self.rounds_started.append(rnd)
+            part = [j for j in jobs if j.get('jobs', 1) == k and j.get('round', 0) == rnd]
             conc = max(1, ncpu // k)
             slots = queue.Queue()
             for i in range(conc):
@@ -399,6 +414,8 @@ class Matrix:
         bc = st['bounds_completed']
         cov['bounds_completed'] = st.get('pb_max', 0) if bc is None or bc >= 99 else bc   # largest preemption bound completed by every case (cases ask for at most their own pb)
         cov['by_thread_mix_and_bounds'] = st.get('by_mix', {})
+        cov['rounds_completed'] = [r for r in self.rounds_started if r not in self.skipped_rounds]
+        cov['rounds_skipped_by_deadline'] = sorted(self.skipped_rounds)
         if not st['exhaustive']:
             cov['exhaustive'] = False
         cov['rule'] = rule
